@@ -103,8 +103,8 @@ _mk("C12",
     extra_tb=[TB_FLOAT, "grok, xmlquery, dateparse/time zone table (funcs.TimestampHandle), Go time.Format, obfuscate (oracles)"], exhaustive=False)
 
 _mk("C03",
-    ["Platypus.Properties.C03", "Platypus.Properties.C02Facts"],
-    rule="random grammar-directed control-flow programs (typed generator, mostly valid): nested if/elif/else over all truthiness classes, three-clause for with each clause optional, "
+    ["Platypus.Properties.C03", "Platypus.Properties.C02Facts", "Platypus.Properties.C03Scope"],
+    rule="exhaustive branch selection (if/elif/elif/else over 16 conditions of every type and truthiness x every subset of the blocks empty); random grammar-directed control-flow programs (typed generator, mostly valid, empty blocks included): nested if/elif/else over all truthiness classes, three-clause for with each clause optional, "
          "for-in over list/string/map/point values, break/continue at any depth, assignments and compound assignments to new/outer/shadowing names, probes as the only effects; "
          "map iteration order is existential (all orders of up to 10 binary / 4 six-way iterations tried); every case also self-checks the refinement statement (semStmts = abs(runStmts)) on its top-level block; strict",
     technique="Lean 4 refinement theorem: the implementation's three-flag statement machine equals a structured outcome semantics (break/continue consumed by the innermost loop, scopes popped, nothing after exit) for all shaped programs, states and fuel, generic in the expression evaluator + truthiness table regenerated from source + random program correspondence",
